@@ -287,6 +287,10 @@ def run(ctx):
     import pskel as _pskel
     _pskel.rule_P_PRIM(ctx)
     _pskel.rule_P_SKELETON(ctx)
+    # naming-law lints over the modules this property lives in (sibling slips: truth<->budget, stamp<->punctuation, left<->right, swapped arguments)
+    import roles as _roles
+    _roles.rule_R_ROLE(ctx, modules=('conversion::string::impl_enum::parser', 'conversion::inter_type', 'enum_narsese::term'))
+    _roles.rule_A_NAMES(ctx, modules=('conversion::string::impl_enum::parser', 'conversion::inter_type', 'enum_narsese::term'))
     ctx.undecided = ["nothing value-dependent: the desugaring and index rules are shape facts; std's usize::from_str is trusted for the decimal syntax"]
     ctx.assumptions = ["Iterator::position returns the first index satisfying the predicate (std)", "usize::from_str parses decimal"]
     ctx.trusted = ["rustc nightly front end / MIR", "mirfacts driver", "python rule layer"]
